@@ -119,6 +119,10 @@ type zvC15Case struct {
 	LenA int `json:"len_a"`
 	LenB int `json:"len_b"`
 	Pos  int `json:"flip_pos"`
+	// ordering cases: addresses differing in two bit positions (Pos and Pos2); Mode 0: base^Pos vs base^Pos2, 1: base vs base^Pos^Pos2
+	Ord  bool `json:"ordering,omitempty"`
+	Pos2 int  `json:"flip_pos2,omitempty"`
+	Mode int  `json:"mode,omitempty"`
 	// boundary address cases
 	Bnd bool   `json:"boundary,omitempty"`
 	Hi  uint64 `json:"hi,omitempty"`
@@ -140,6 +144,38 @@ func zvC15Boundary(r *vh.Run, c zvC15Case) {
 		r.Violation(vh.Sig("clause", "roundtrip_ip", "family", fmt.Sprint(c.Fam), "class", cls), c,
 			"IPFromString(%q) = %v (isLegacy=%v) err=%v; want the same address back", ip.String(), back.String(), back.isLegacy, err)
 	}
+}
+
+// zvC15Order checks address ordering for two addresses that differ in two bit positions (in particular one in each
+// 64-bit half, ordered in opposite directions), in both argument orders.
+func zvC15Order(r *vh.Run, c zvC15Case) {
+	w := 32
+	if c.Fam == 6 {
+		w = 128
+	}
+	base := zvPattern(c.Pat, w)
+	a, b := base.flip(c.Pos), base.flip(c.Pos2)
+	if c.Mode == 1 {
+		a, b = base, base.flip(c.Pos).flip(c.Pos2)
+	}
+	r.Eval(1)
+	ai, bi := a.ip(), b.ip()
+	for _, d := range []struct {
+		x, y *IP
+		want int8
+	}{{&ai, &bi, zvCmp(a, b)}, {&bi, &ai, zvCmp(b, a)}} {
+		if got := d.x.Compare(d.y); got != d.want {
+			halves := "same_half"
+			if (c.Pos <= 64) != (c.Pos2 <= 64) && w == 128 {
+				halves = "both_halves"
+			}
+			r.Violation(vh.Sig("clause", "compare", "family", fmt.Sprint(c.Fam), "differ_in", halves), c, "%s.Compare(%s) = %d want %d", d.x.String(), d.y.String(), got, d.want)
+		}
+	}
+	if w == 128 && (c.Pos <= 64) != (c.Pos2 <= 64) && a[c.Pos-1] != a[c.Pos2-1] {
+		r.Count("compare_halves_opposed", 1)
+	}
+	r.Nontrivial(1)
 }
 
 func zvC15One(r *vh.Run, c zvC15Case) {
@@ -273,12 +309,14 @@ func TestVerifC15(t *testing.T) {
 	r := vh.Start(t, "C15")
 	defer r.Finish()
 	r.Rule("every (len_a,len_b) pair x 5 base patterns x (identical | one bit flipped at each position 1..W), IPv4 (W=32) and IPv6 (W=128); " +
-		"plus every (pattern,len,flip) for the single-prefix operations and boundary addresses; non-trivial = the flipped bit lies inside at least one of the two prefixes")
-	r.Require("contains_true", "contains_false_longer", "equal_true", "supernet_checked", "compare_nonzero", "valid_true", "valid_false")
+		"plus address ordering for every pair of addresses differing in two bit positions (both argument orders); plus every (pattern,len,flip) for the single-prefix operations and boundary addresses; non-trivial = the flipped bit lies inside at least one of the two prefixes")
+	r.Require("contains_true", "contains_false_longer", "equal_true", "supernet_checked", "compare_nonzero", "compare_halves_opposed", "valid_true", "valid_false")
 	if r.IsReplay() {
 		var c zvC15Case
 		r.ReplayCase(&c)
-		if c.Bnd {
+		if c.Ord {
+			zvC15Order(r, c)
+		} else if c.Bnd {
 			zvC15Boundary(r, c)
 		} else if c.LenB < 0 {
 			zvC15Single(r, c.Fam, c.Pat, c.LenA, c.Pos)
@@ -309,6 +347,16 @@ func TestVerifC15(t *testing.T) {
 			for pat := 0; pat < 5; pat++ {
 				for flip := 0; flip <= w; flip++ {
 					zvC15Single(r, fam, pat, la, flip)
+				}
+			}
+			// ordering of addresses that differ in two positions (la, p2), every p2 > la
+			if la >= 1 {
+				for pat := 0; pat < 5; pat++ {
+					for p2 := la + 1; p2 <= w; p2++ {
+						for mode := 0; mode < 2; mode++ {
+							zvC15Order(r, zvC15Case{Fam: fam, Pat: pat, Ord: true, Pos: la, Pos2: p2, Mode: mode})
+						}
+					}
 				}
 			}
 			if la == 24 {
